@@ -1,12 +1,13 @@
 ------------------------------- MODULE MCCasts -------------------------------
 EXTENDS Casts, Json
 LawsOnce == (c.from = "f64" /\ c.to = "f64" /\ c.v = 0) =>
-                NullPreserved /\ OptionComposes /\ PredicatesCoherent /\ ComparatorAxioms /\ TDAxioms
+                NullPreserved /\ OptionComposes /\ PredicatesCoherent /\ ComparatorAxioms /\ TDAxioms /\ StrCoherent
 
 TagStr(t) == t
 Applies == IF c.from \in Types THEN HasVal(c.from, c.v) ELSE TRUE
 Expected ==
     IF c.from \in Types /\ c.to \in Types THEN CastExp(c.v, c.from, c.to)
+    ELSE IF c.from = "string" /\ c.to \in Types THEN StrCastExp(c.v, c.to)
     ELSE \* string and time types: only the null rule is specified
          IF c.v = NULL THEN (IF CanNull(c.to) THEN <<"null">>
                              ELSE IF c.from \in Types /\ IsOpt(c.from) THEN <<"panic">> ELSE <<"any">>)
